@@ -114,3 +114,89 @@ Example C08_mixed_nonvacuous :
   Forall simple_item [("x", Some ("b", "", None)); ("y", None)] /\
   (n_entries [("x", Some ("b", "", None)); ("y", None)] <> 1)%nat.
 Proof. split; [repeat constructor|discriminate]. Qed.
+
+(** * Tie B: the formatter regenerated from the current pypyr/formatting.py
+    (Gen/GenC08.v, by tools/py2coq_c08.py before every build) is the model the theorems
+    above are about.  CPython's tokenizer, get_field, _vformat, convert_field, format_field
+    and the special tags' get_value are the translator's abstract primitives, instantiated
+    here by the model's functions (Model/FormatSrc.v). *)
+From PV Require Import FormatSrc GenC08 GenC08Proofs.
+
+(** RecursionSpec: the rf / ff prefix of a format spec and its flags *)
+Theorem C08_source_recursion_spec_is_model : forall spec,
+  gen_RecursionSpec spec = src_of_rspec (mk_rspec spec) false.
+Proof. exact gen_RecursionSpec_is_model. Qed.
+Print Assumptions C08_source_recursion_spec_is_model.
+
+(** one iteration of _format_keep_type's loop: the literal rule and [field_entry]
+    (look-up, spec expansion, which fields are recursed given rf / ff / is_recursive,
+    conversion) *)
+Theorem C08_source_field_loop_body_is_model : forall ctx rec is_rec acc lit fo,
+  gen_format_keep_type_body (src_get_field ctx) (src_vformat ctx) convert_field rec
+    2 is_rec (AutoAt 0, map enc_entry acc) (lit, fo)
+  = (let* mid := match fo with
+                 | None => Ok []
+                 | Some fld => let* e := field_entry ctx rec is_rec fld in Ok [e]
+                 end in
+     Ok (AutoAt 0, map enc_entry (acc ++ lit_entries lit ++ mid)%list)).
+Proof. exact body_is_model. Qed.
+Print Assumptions C08_source_field_loop_body_is_model.
+
+(** _format_keep_type as a whole (loop, single-expression rule, literal-only strings,
+    join), for every string and every behaviour of the nested formatting *)
+Theorem C08_source_keep_type_is_model : forall ctx rec s is_rec,
+  gen_format_keep_type parse (src_get_field ctx) (src_vformat ctx) convert_field format_field rec
+    s gen_FORMAT_SPEC_RECURSION_DEPTH (AutoAt 0) is_rec
+  = keep_type ctx rec s is_rec.
+Proof. exact keep_type_is_model. Qed.
+Print Assumptions C08_source_keep_type_is_model.
+
+(** _get_formatted_iterable — the type dispatch, with the formatter as Context builds it —
+    is one step of [fmt_iter] *)
+Theorem C08_source_dispatch_is_model : forall ctx rec v is_rec,
+  gen_get_formatted_iterable gen_context_passthrough_types gen_context_special_types
+    parse (src_get_field ctx) (src_vformat ctx) convert_field format_field
+    (src_special_value ctx rec) rec v is_rec
+  = iter_body ctx rec v is_rec.
+Proof. exact iter_is_model. Qed.
+Print Assumptions C08_source_dispatch_is_model.
+
+(** the generated dispatch closed on fuel is [fmt_iter], to any depth *)
+Theorem C08_source_formatter_is_model : forall ctx fuel v is_rec,
+  gen_fmt_iter ctx fuel v is_rec = fmt_iter ctx fuel v is_rec.
+Proof. exact gen_fmt_iter_is_model. Qed.
+Print Assumptions C08_source_formatter_is_model.
+
+(** Context.get_formatted_value(v) = formatter.vformat(v, None, context) *)
+Theorem C08_source_vformat_is_model : forall ctx f v,
+  format_value (S f) ctx v
+  = gen_vformat gen_context_passthrough_types gen_context_special_types
+      parse (src_get_field ctx) (src_vformat ctx) convert_field format_field
+      (src_special_value ctx (fmt_iter ctx f)) (fmt_iter ctx f) v.
+Proof. exact format_value_is_vformat. Qed.
+Print Assumptions C08_source_vformat_is_model.
+
+(** the special tags' get_value (pypyr/dsl.py) *)
+Theorem C08_source_special_tags_is_model : forall ctx rec v,
+  src_special_value ctx rec v =
+  match v with
+  | VPy src e => gen_PyString_get_value (fun _ => eval_py (S (pyexpr_size e)) ctx e) src
+  | VSic s => gen_SicString_get_value s
+  | VJsonify x =>
+      gen_Jsonify_get_value (fun y => rec y false) (fun y => res_of_opt (json_dumps y)) x
+  | _ => Unsup
+  end.
+Proof. exact special_value_is_source. Qed.
+Print Assumptions C08_source_special_tags_is_model.
+
+(** how Context constructs and calls the formatter *)
+Theorem C08_source_context_formatter_is_model :
+  gen_formatter_attrs = ["passthrough_types"; "special_types"]
+  /\ gen_context_passthrough_types = None
+  /\ gen_context_special_types = Some ["SpecialTagDirective"]
+  /\ gen_context_get_formatted_value_call = mk_src_ambient true true
+  /\ gen_context_get_formatted_call = mk_src_ambient true true
+  /\ gen_context_get_formatted_as_type_call = mk_src_ambient true true
+  /\ gen_context_iter_formatted_strings_call = mk_src_ambient true true.
+Proof. exact context_formatter_is_model. Qed.
+Print Assumptions C08_source_context_formatter_is_model.
